@@ -170,7 +170,13 @@ func (msg *Message) RESPBytes() ([]byte, error) {
 			return nil, fmt.Errorf(errorUnknownMessageType, msg.Type)
 		}
 		respBytes.WriteByte(b)
-		respBytes.Write(msg.bytes)
+		// A line-type message is terminated by the first CRLF, so its text must not contain CR or LF.
+		for _, c := range msg.bytes {
+			if c == cr || c == lf {
+				c = ' '
+			}
+			respBytes.WriteByte(c)
+		}
 		respBytes.WriteRune(cr)
 		respBytes.WriteRune(lf)
 	case BulkMessage:
